@@ -180,11 +180,16 @@ var shells = func() []string {
 // runBatch feeds one "p <escaped>" line per item to the shell and reports whether every line
 // produced exactly one argument equal to the expected value.
 func runBatch(t testing.TB, shell string, dir string, items []item) (ok bool, detail string) {
+	// all escapes first, use afterwards: the way a caller composes a command line out of several arguments
+	escs := make([]string, len(items))
+	for i, it := range items {
+		escs[i] = it.escaped()
+	}
 	var sb bytes.Buffer
 	sb.WriteString("p() { printf '%s\\0' \"$#\" \"$@\"; }\n")
-	for _, it := range items {
+	for i := range items {
 		sb.WriteString("p ")
-		sb.WriteString(it.escaped())
+		sb.WriteString(escs[i])
 		sb.WriteString("\n")
 	}
 	script := dir + "/batch.sh"
@@ -388,6 +393,20 @@ func TestGenerated(t *testing.T) {
 			if msg := modelCheck(fn, s); msg != "" {
 				t.Fatalf("%s", msg)
 			}
+		}
+		// the returned string must stay what it is: escape a second string and look at the first result again
+		s2 := genString().Draw(t, "s2")
+		for _, fn := range fns {
+			r1 := item{fn, s}.escaped()
+			keep := strings.Clone(r1)
+			r2 := item{fn, s2}.escaped()
+			if r1 != keep {
+				t.Fatalf("%s(%q) returned %q, but after a later call %s(%q) that same string reads %q", fn, s, keep, fn, s2, r1)
+			}
+			if msg := modelCheck(fn, s2); msg != "" {
+				t.Fatalf("%s", msg)
+			}
+			_ = r2
 		}
 		// real shells: small batches so that a failing case shrinks through the same path
 		n++
